@@ -1,0 +1,31 @@
+//go:build verif
+
+package cstate
+
+import (
+	"github.com/kardiachain/go-kardia/kai/kaidb"
+	"github.com/kardiachain/go-kardia/lib/log"
+	"github.com/kardiachain/go-kardia/types"
+)
+
+// Export wrappers for the verification harness of property C14 (family cstore) and for the
+// updateState clause of property C12.  Add-only: nothing here is reachable without the build tag.
+
+// VerifUpdateState exposes updateState (the chain-state transition that ApplyBlock performs after the
+// application has executed a block): rotation of the three validator sets, application of the
+// validator updates to NextValidators, one proposer-priority increment.
+func VerifUpdateState(state LatestBlockState, blockID types.BlockID, header *types.Header, valUpdates []*types.Validator) (LatestBlockState, error) {
+	return updateState(log.New(), state, blockID, header, valUpdates)
+}
+
+// VerifCalculateValidatorSetUpdates exposes calculateValidatorSetUpdates (full validator list returned by the
+// staking contract -> change set against the current NextValidators).
+func VerifCalculateValidatorSetUpdates(lastVals []*types.Validator, vals []*types.Validator) []*types.Validator {
+	return calculateValidatorSetUpdates(lastVals, vals)
+}
+
+// VerifLoadStateAtHeight exposes loadStateAtHeight (what Load() does for the head height) for an arbitrary
+// height whose per-height record is still stored.
+func VerifLoadStateAtHeight(db kaidb.Database, height uint64) *LatestBlockState {
+	return loadStateAtHeight(db, height)
+}
